@@ -113,6 +113,7 @@ type expOpts struct {
 	noListener bool // the peer is a real collector started by the caller
 	tls        *exporter.ExporterTLSClientConfig
 	addr       string
+	udpHook    func(s *expSession, p []byte) simnet.Fate // fault hook on the exporter's datagram socket
 }
 
 func newExpSession(env *Env) (*expSession, error) { return newExpSessionOpts(env, expOpts{}) }
@@ -140,6 +141,9 @@ func newExpSessionOpts(env *Env, o expOpts) (*expSession, error) {
 		env.Net.OnUDPBind = func(c *simnet.UDPConn) {
 			if c.RemoteAddr() != nil {
 				c.Tap = func(to *net.UDPAddr, p []byte) { s.tap(p) }
+				if o.udpHook != nil {
+					c.Hook = func(_ *simnet.UDPConn, to *net.UDPAddr, p []byte) simnet.Fate { return o.udpHook(s, p) }
+				}
 			}
 		}
 	}
